@@ -731,6 +731,10 @@ func (a *Authenticator) handleSessionResumption(ctx context.Context, sessionID s
 		responseAd := classad.New()
 		_ = responseAd.Set("ReturnCode", "AUTHORIZED")
 		_ = responseAd.Set("Sid", sessionID)
+		// A fresh value per connection: the reply is hashed into the AAD of the first
+		// protected frame in each direction, so frames recorded on an earlier
+		// connection of this session no longer authenticate on this one.
+		_ = responseAd.Set("ResumeNonce", resumeNonce())
 
 		responseMsg := message.NewMessageForStream(a.stream)
 		if err := responseMsg.PutClassAd(ctx, responseAd); err != nil {
@@ -1437,6 +1441,17 @@ func (a *Authenticator) storeClientSession(negotiation *SecurityNegotiation, dur
 		redactSessionID(negotiation.SessionId), serverAddr, durationSecs, leaseSecs), "destination", "cedar")
 }
 
+// resumeNonce returns 128 random bits, hex encoded.
+func resumeNonce() string {
+	var b [16]byte
+	if _, err := rand.Read(b[:]); err != nil {
+		// crypto/rand failing is fatal for every other part of the handshake too;
+		// fall back to the clock rather than a constant.
+		return fmt.Sprintf("%x", time.Now().UnixNano())
+	}
+	return fmt.Sprintf("%x", b[:])
+}
+
 // resumeSession attempts to resume an existing session
 func (a *Authenticator) resumeSession(ctx context.Context, entry *SessionEntry, cache *SessionCache) (*SecurityNegotiation, error) {
 	// Create message for session resumption request
@@ -1468,6 +1483,9 @@ func (a *Authenticator) resumeSession(ctx context.Context, entry *SessionEntry, 
 	_ = resumeAd.Set("UseSession", "YES")
 	_ = resumeAd.Set("Sid", entry.ID())
 	_ = resumeAd.Set("ResumeResponse", true) // Request response for modern protocol
+	// Fresh per connection (see the server's reply): a recorded server side of an
+	// earlier resumed connection cannot be replayed against this request.
+	_ = resumeAd.Set("ResumeNonce", resumeNonce())
 	_ = resumeAd.Set("RemoteVersion", DefaultRemoteVersion)
 
 	// Include crypto methods if available from cached policy
